@@ -105,7 +105,7 @@ type Exec struct {
 	concrete    map[string]*big.Int // translator-validation mode: fixed input values
 	streams     map[string]*streamState
 	stepLimit   int64
-	searches map[string]bool
+	searches    map[string]bool
 	cuts        map[string]*cutSpec
 	stubReal    map[*Term]*Term
 	initFrame   *frame
